@@ -78,11 +78,21 @@ def simplify_plan(plan, test):
             p = q
     if "nthreads" in p:
         # C14: keep only threads that still have calls, numbered densely; then shrink the switch list
-        used = sorted(set(op.get("t", 0) for op in p["ops"]))
+        # relay (objects travelling between live workers): needed at all?
+        if any("x" in op for op in p["ops"]):
+            q = copy.deepcopy(p)
+            for op in q["ops"]:
+                op.pop("x", None)
+            tests += 1
+            if test(q):
+                p = q
+        used = sorted(set(op.get("t", 0) for op in p["ops"]) | set(op["x"] for op in p["ops"] if "x" in op))
         if used and len(used) < p["nthreads"]:
             q = copy.deepcopy(p); m = {t: i for i, t in enumerate(used)}
             for op in q["ops"]:
                 op["t"] = m[op.get("t", 0)]
+                if "x" in op:
+                    op["x"] = m[op["x"]]
             q["nthreads"] = max(1, len(used))
             q["switches"] = [[a, m[t], f] for a, t, f in [(x + [0])[:3] for x in q.get("switches", [])] if t in m]
             for k in ("main_init", "main_free"):
